@@ -28,7 +28,11 @@ import H3.Spec.Framing
 
     Output: `closed=[codes] res=<results of A/W> U=<results of U> | build=ok|pending|err:<code> stops=[…] g=… pending=[…]`
     `##` alternatives `closed=[c] res=… U=… **`.  Engine `ctlrfc`: the same, judged by
-    `Spec.ControlRules.verdictRfc` (RFC 9114 by the letter also for server push).  -/
+    `Spec.ControlRules.verdictRfc` (RFC 9114 by the letter also for server push, RFC 9204 §4.2 for a closed
+    peer QPACK stream).  `ctl note <role> <cfg> <ops>`: instead of the two answers, which of the oracle's
+    recorded leniencies the line meets — `overtaken=` (R-04d: `overtaken` added H3_CLOSED_CRITICAL_STREAM),
+    `qpack=` (R-04e: `Ev.qpackClosed` was judged), `wt=` (an alternative went past frame type 0x41: `?`),
+    `wtseen=` (0x41 among the control stream's events) — for the NOTE lines of the check.  -/
 namespace H3.Drv.C04
 open H3.Drv H3.Control
 
@@ -706,6 +710,8 @@ structure SStream where
   emitted : Nat := 0
   /-- WebTransport stream: handed out by `U` -/
   drained : Bool := false
+  /-- QPACK encoder / decoder stream: its closing has been judged (`Ev.qpackClosed`, reading R-04e) -/
+  qClosed : Bool := false
 deriving Repr
 
 /-- the setup as the specification sees it: going on, over with a connection, over with
@@ -734,6 +740,13 @@ structure SpecSt where
   strict : Bool := false
   /-- the specification has no opinion on this line -/
   unknown : Bool := false
+  /-- bookkeeping for the per-run NOTE lines (`ctl note …`), not part of any verdict: this alternative is
+      the H3_CLOSED_CRITICAL_STREAM that `overtaken` added (R-04d) / `Ev.qpackClosed` was judged on the
+      way to it (R-04e) -/
+  overtook : Bool := false
+  qjudged : Bool := false
+  /-- the control stream's events contain frame type 0x41 (before the second audit: the whole line `?`) -/
+  wtSeen : Bool := false
 deriving Repr
 
 def SpecSt.peerBytes (s : SpecSt) (sid : Nat) (b : Bytes) : SpecSt :=
@@ -753,6 +766,22 @@ def judge (s : SpecSt) (e : H3.Spec.ControlRules.Ev) : List SpecSt :=
   | (.may cs, st1) => (cs.map fun c => { s with dead := some c }) ++ [{ s with st := st1 }]
 
 open H3.Spec.ControlRules in
+/-- a peer QPACK encoder / decoder stream (type known, accepted as such) whose FIN or RESET has arrived
+    and has not been judged yet -/
+def closedQpack (u : SStream) : Bool :=
+  !u.qClosed && u.ended.isSome &&
+    (u.cls == some (some StreamTy.encoder) || u.cls == some (some StreamTy.decoder))
+
+open H3.Spec.ControlRules in
+/-- the error alternatives of `Ev.qpackClosed` if such a closing waits to be judged: an endpoint may
+    notice it before anything else that is available at the same time (the closing itself is judged,
+    once, by `qpackPhase` at the end of the poll) -/
+def qpackDead (s : SpecSt) : List SpecSt :=
+  if s.dead.isNone && s.streams.any closedQpack then
+    (judge { s with qjudged := true } .qpackClosed).filter (·.dead.isSome)
+  else []
+
+open H3.Spec.ControlRules in
 /-- the unidirectional streams whose header can be judged now, in the order they were opened -/
 def streamPhase : Nat → SpecSt → List SpecSt
   | 0, s => [s]
@@ -761,6 +790,7 @@ def streamPhase : Nat → SpecSt → List SpecSt
     match s.streams.find? (fun u => u.cls.isNone && (header u.bytes != .incomplete || u.ended.isSome)) with
     | none => [s]
     | some u =>
+      qpackDead s ++
       match header u.bytes with
       | .incomplete =>
         let s1 := { s with streams := s.streams.map fun v => if v.sid == u.sid then { v with cls := some none } else v }
@@ -799,9 +829,50 @@ def hdrRest (b : Bytes) : Bytes :=
   | .complete _ _ r => r
   | .incomplete => []
 
+open H3.Spec.ControlRules in
+/-- Reading R-04e: a peer QPACK encoder / decoder stream — its type known and the stream accepted as
+    such — whose FIN or RESET has arrived is `Ev.qpackClosed`, judged once per stream. -/
+def qpackPhase : Nat → SpecSt → List SpecSt
+  | 0, s => [s]
+  | fuel+1, s =>
+    if s.dead.isSome then [s] else
+    match s.streams.find? closedQpack with
+    | none => [s]
+    | some u =>
+      let s1 := { s with qjudged := true,
+                         streams := s.streams.map fun v => if v.sid == u.sid then { v with qClosed := true } else v }
+      (judge s1 .qpackClosed).flatMap (qpackPhase fuel)
+
+open H3.Spec.ControlRules in
+/-- Reading R-04d ("a RESET overtakes"): `r` = the alternatives the table leaves for one event of a
+    batch, `x` = the state before it.  When the control stream has been reset *before the endpoint
+    looked at this batch* (`isReset`) and the table demands an error (every alternative dead) that is
+    not H3_CLOSED_CRITICAL_STREAM already, that code is accepted too: a QUIC receiver may discard
+    what it has not delivered yet when RESET_STREAM arrives (RFC 9000 §3.2), so an endpoint may learn
+    of the reset instead of the frame.  Nothing else is added, and nothing without a reset. -/
+def overtaken (isReset : Bool) (x : SpecSt) (r : List SpecSt) : List SpecSt :=
+  if isReset && r.all (·.dead.isSome) && !(r.any (·.dead == some H3_CLOSED_CRITICAL_STREAM)) then
+    r ++ [{ x with dead := some H3_CLOSED_CRITICAL_STREAM, overtook := true }]
+  else r
+
+open H3.Spec.ControlRules in
+/-- one event of the control stream under every alternative reached so far.  The WebTransport signal
+    value 0x41 used as a frame type: the table's `may` — an error is definite; on the alternative
+    without an error the specification cannot read the rest of the stream (the value has no length
+    field) and has no opinion from there on (`unknown`), on THAT alternative only. -/
+def ctlStep (isReset : Bool) (acc : List SpecSt) (e : CtlEv) : List SpecSt :=
+  acc.flatMap fun x =>
+    if x.dead.isSome || x.unknown then [x] else
+    let r := judge x (.ctl e)
+    let r := if e == .wtSignal then r.map (fun y => if y.dead.isSome then y else { y with unknown := true }) else r
+    overtaken isReset x r
+
 open H3.Spec.Framing H3.Spec.ControlRules in
-/-- the control stream's new events.  A RESET may overtake what was sent before it: when the
-    stream has been reset every `must` of this batch also accepts H3_CLOSED_CRITICAL_STREAM. -/
+/-- the control stream's new events: those of the bytes that arrived since the endpoint last looked
+    (`emitted`), then `reset` if the stream has been reset by now.  `isReset` therefore speaks of a
+    reset that arrived before the quiescence point that follows the delivery of these events — an
+    event judged by an earlier call (an op of the line in between, the driver polled to quiescence)
+    is never re-judged (R-04d; `C04_reset_overtakes_only_unseen_frames`). -/
 def ctlPhase (s : SpecSt) : List SpecSt :=
   if s.dead.isSome then [s] else
   match s.ctlSid.bind (fun sid => s.streams.find? (fun u => u.sid == sid)) with
@@ -813,16 +884,9 @@ def ctlPhase (s : SpecSt) : List SpecSt :=
     let evs := toks.filterMap tokEv
     let isReset := match u.ended with | some (.reset _) => true | _ => false
     let new := evs.drop u.emitted ++ (if isReset then [CtlEv.reset] else [])
-    let s1 := { s with streams := s.streams.map fun v => if v.sid == u.sid then { v with emitted := evs.length } else v }
-    let s1 := if evs.contains .wtSignal then { s1 with unknown := true } else s1
-    let step (acc : List SpecSt) (e : CtlEv) : List SpecSt :=
-      acc.flatMap fun x =>
-        if x.dead.isSome then [x] else
-        let r := judge x (.ctl e)
-        if isReset && r.all (·.dead.isSome) && !(r.any (·.dead == some H3_CLOSED_CRITICAL_STREAM)) then
-          r ++ [{ x with dead := some H3_CLOSED_CRITICAL_STREAM }]
-        else r
-    new.foldl step [s1]
+    let s1 := { s with wtSeen := s.wtSeen || evs.contains .wtSignal,
+                       streams := s.streams.map fun v => if v.sid == u.sid then { v with emitted := evs.length } else v }
+    new.foldl (ctlStep isReset) [s1]
 
 /-! The endpoint's own streams, specification side (RFC 9114 §6.2.1: "Each side MUST initiate a
     single control stream at the beginning of the connection and send its SETTINGS frame as the first
@@ -899,7 +963,9 @@ def finalAlts (x : SpecSt) : List (SpecSt × Option String) :=
 open H3.Spec.ControlRules in
 /-- one poll of the driver, specification side -/
 def specPoll (s : SpecSt) : List (SpecSt × Option String) :=
-  (if s.waiting then [s] else (streamPhase (s.streams.length + 1) s).flatMap ctlPhase).flatMap fun x =>
+  (if s.waiting then [s] else
+    ((streamPhase (s.streams.length + 1) s).flatMap (fun x => qpackDead x ++ ctlPhase x)).flatMap
+      (qpackPhase (s.streams.length + 1))).flatMap fun x =>
     match x.dead with
     | some c => [(x, some s!"err:{c}")]
     | none =>
@@ -966,7 +1032,7 @@ def renderSpec (alts : List (SpecSt × Task)) : String :=
     s!"closed=[{closed}] res={renderList t.results ","} U={renderList t.us "/"} **"
   " || ".intercalate lines.eraseDups
 
-def handleWith (strict : Bool) (role cfg : String) (ops : List String) : String :=
+def handleWith (strict note : Bool) (role cfg : String) (ops : List String) : String :=
     if role != "server" && role != "client" then "bad-op" else
     let server := role == "server"
     match parseCfg server cfg with
@@ -981,11 +1047,18 @@ def handleWith (strict : Bool) (role cfg : String) (ops : List String) : String 
       if m == "unsupported" then "unsupported ## ?" else
       let sp0 : SpecSt := { rc := rc, env := OwnNet.init rc, strict := strict }
       let alts := runSpec ((specSetup sp0).map fun x => (x, {})) ops
+      if note then
+        -- `ctl note …`: which of the oracle's recorded leniencies this line meets (for the NOTE lines
+        -- of the check; R-04d, R-04e, frame type 0x41)
+        let b (x : Bool) : String := if x then "1" else "0"
+        s!"overtaken={b (alts.any (·.1.overtook))} qpack={b (alts.any (·.1.qjudged))} wt={b (alts.any (·.1.unknown))} wtseen={b (alts.any (·.1.wtSeen))}"
+      else
       m ++ " ## " ++ renderSpec alts
 
 def handle : List String → String
-  | "ctl" :: role :: cfg :: ops => handleWith false role cfg ops
-  | "ctlrfc" :: role :: cfg :: ops => handleWith true role cfg ops
+  | "ctl" :: "note" :: role :: cfg :: ops => handleWith false true role cfg ops
+  | "ctl" :: role :: cfg :: ops => handleWith false false role cfg ops
+  | "ctlrfc" :: role :: cfg :: ops => handleWith true false role cfg ops
   | _ => "bad-op"
 
 end H3.Drv.C04
